@@ -17,6 +17,9 @@ func (w *WriterObj) Invoke(ex *exec.Exec, method string, args []exec.Value) exec
 	}
 	ex.Emit("Write", w.Name, args[0])
 	fail := ex.C.Fresh("fault_write", smt.Bool)
+	if noFaults(ex) {
+		ex.AssumeNoCheck(ex.C.Not(fail))
+	}
 	if ex.Branch(fail) {
 		n := ex.C.Fresh("short_write_n", smt.Int)
 		return exec.Tuple{n, ex.NewError(ex.C.StrC("write failed"), "write")}
@@ -46,6 +49,9 @@ func MockEnvStubs() map[string]exec.Stub {
 	st["(*text/template.Template).Execute"] = func(ex *exec.Exec, c *exec.CallInfo) exec.Value {
 		ex.Emit("Execute", "", c.Args[2])
 		fail := ex.C.Fresh("fault_execute", smt.Bool)
+		if noFaults(ex) {
+			ex.AssumeNoCheck(ex.C.Not(fail))
+		}
 		if ex.Branch(fail) {
 			return ex.NewError(ex.C.StrC("template: exec failed"), "execute")
 		}
@@ -70,6 +76,9 @@ func MockEnvStubs() map[string]exec.Stub {
 			}
 			ex.Emit("Format:"+uf, "", src)
 			fail := ex.C.Fresh(fault, smt.Bool)
+			if noFaults(ex) {
+				ex.AssumeNoCheck(ex.C.Not(fail))
+			}
 			if ex.Branch(fail) {
 				return exec.Tuple{exec.Slice{}, ex.NewError(ex.C.StrC(uf+" failed"), "format")}
 			}
@@ -111,6 +120,12 @@ type Cmp[T any] interface { Less(o T) bool }
 type SO[T Cmp[T]] interface { Min() T }
 type UID string
 type Repo[K interface{ UID }, V any] interface { Load(id K) (V, error) }
+type CK[K comparable, V any] interface { Snap() map[K]V }
+type St[T any] interface { Fetch(id string) (T, error) }
+type U1 struct{}
+type O1 struct{}
+type US interface { St[U1] }
+type OS interface { St[O1] }
 `
 
 type mockSetup struct {
@@ -182,6 +197,18 @@ func buildMocker(ex *exec.Exec, env *Env, pkgs map[string]*types.Package, mode s
 	}
 	ms.src = cv.Pkg(srcT)
 	ms.src.Scope = cv.Scope(srcT)
+	if light, _ := ex.User["lightScope"].(bool); light {
+		// the light variant keeps five objects of the model package in scope
+		keep := map[string]bool{"I1": true, "I2": true, "G": true, "S": true, "L": true}
+		sc := &MScope{}
+		for i, o := range ms.src.Scope.Objs {
+			if keep[o.Tag] {
+				sc.Names = append(sc.Names, ms.src.Scope.Names[i])
+				sc.Objs = append(sc.Objs, o)
+			}
+		}
+		ms.src.Scope = sc
+	}
 	for i, o := range ms.src.Scope.Objs {
 		_ = i
 		ms.objs[o.Tag] = o
@@ -218,7 +245,27 @@ func buildMocker(ex *exec.Exec, env *Env, pkgs map[string]*types.Package, mode s
 	cfgV.F[fieldIndex(ct, "SkipEnsure")] = ms.skip
 	cfgV.F[fieldIndex(ct, "WithResets")] = ms.resets
 	cfgV.F[fieldIndex(ct, "SrcDir")] = c.Var("cfg_SrcDir", smt.String)
-	ms.mocker = newStruct(ex, mt, map[string]exec.Value{"cfg": cfgV, "registry": ms.reg})
+	// the Mocker is built by the real moq.New (from SSA), so that whatever New initialises is
+	// initialised here too; only package loading (registry.New) and template parsing are replaced
+	_ = mt
+	newFn := repo.Fn(pkgMoq, "New")
+	saved := ex.LocalStubs
+	ex.LocalStubs = map[string]exec.Stub{
+		pkgRegistry + ".New": func(ex *exec.Exec, c *exec.CallInfo) exec.Value { return exec.Tuple{ms.reg, exec.Iface{}} },
+		pkgTemplate + ".New": func(ex *exec.Exec, c *exec.CallInfo) exec.Value {
+			return exec.Tuple{ex.Zero(repo.named(pkgTemplate, "Template")), exec.Iface{}}
+		},
+	}
+	r, pan := ex.CallCatch(newFn, []exec.Value{cfgV})
+	ex.LocalStubs = saved
+	if pan != nil {
+		ex.Inconclusive("moq.New panics while the harness builds the Mocker: " + pan.Msg)
+	}
+	loc, ok := r.(exec.Tuple)[0].(*exec.StructLoc)
+	if !ok {
+		ex.Inconclusive("moq.New did not return a Mocker")
+	}
+	ms.mocker = loc
 	return ms
 }
 
@@ -331,8 +378,12 @@ func refPair(ex *exec.Exec, np *smt.Term) (*smt.Term, *smt.Term) {
 // It serves C17 (all-or-nothing), C20 (one mock per argument), C16 (formatter data flow),
 // C08 (flag plumbing), C10 (source-package import rule), C11 (sync rule), C02 (method list).
 func HMock(props ...string) *Harness {
+	variant := "light"
+	if len(props) > 0 {
+		variant = props[0]
+	}
 	hh := &Harness{
-		ID:  "H.mock",
+		ID:  "H.mock/" + variant,
 		Doc: "(*Mocker).Mock from SSA: k symbolic 'iface[:mock]' arguments, model source package, symbolic faults in template/formatter/writer",
 		Funcs: []string{"pkg/moq.(*Mocker).Mock", "pkg/moq.parseInterfaceName", "pkg/moq.(*Mocker).methodData", "pkg/moq.(*Mocker).typeParams",
 			"pkg/moq.explicitConstraintType", "pkg/moq.(*Mocker).mockPkgName", "pkg/moq.(*Mocker).format", "pkg/moq.gofmt", "pkg/moq.goimports",
@@ -352,25 +403,54 @@ func HMock(props ...string) *Harness {
 		if env.Tier == "thorough" {
 			maxK, bound = 3, 8
 		}
-		hh.Bounds = []string{fmt.Sprintf("k ≤ %d arguments (symbolic strings), identifiers and path segments ≤ %d chars, destination modes {same, unknown, other}", maxK, bound)}
+		hh.Bounds = []string{fmt.Sprintf("k ≤ %d arguments (symbolic strings), identifiers ≤ %d chars, destination modes {same, unknown, other}; k = 1: every object of the model package is a candidate; k ≥ 2: candidates restricted to four focus groups of interacting objects (k = 3: two groups), fixed formatter and -pkg", maxK, bound)}
 		pkgs, _, err := TypeCheck([]SrcPkg{{"src.example/p/q", mockShapeDep}, {"src.example/r/q", mockShapeDep2}, {"src.example/h", mockShapeHelper}, {"src.example/src", mockShapeSrc}})
 		if err != nil {
 			panic(err)
 		}
 		var out []Instance
+		// with one argument every object of the model package is a candidate; with several arguments the
+		// candidates are restricted to focus groups (objects whose interaction matters), stated in the bounds
+		focusGroups := map[string][]string{
+			"conflicting-imports": {"I1", "K", "S"},
+			"instantiations":      {"US", "OS", "St"},
+			"generics":            {"G", "AG", "CK"},
+			"constraints":         {"L", "SO", "Repo", "I2"},
+		}
 		for k := 0; k <= maxK; k++ {
 			for _, mode := range []string{"same", "unknown", "other"} {
 				if k == 0 && mode != "same" {
 					continue
 				}
-				k, mode := k, mode
-				out = append(out, Instance{Name: fmt.Sprintf("k=%d,dest=%s", k, mode), Run: func(ic *IC) *exec.Stats {
-					ic.StrBound = bound
-					fn := env.Repo.Method(pkgMoq, "Mocker", "Mock")
-					st := ic.Explore(func(ex *exec.Exec) { runMock(ic, ex, env, fn, pkgs, k, mode, bound, false) })
-					mockUnwinding(ic, st, k, mode)
-					return st
-				}})
+				if k >= 2 && variant == "full" && mode == "unknown" {
+					continue // behaves like "other" for everything the full variant checks
+				}
+				groups := []string{""}
+				if k >= 2 && variant == "full" {
+					groups = sortedKeys(focusGroups)
+				}
+				if k >= 3 {
+					groups = []string{"conflicting-imports", "instantiations"}
+				}
+				for _, g := range groups {
+					k, mode, g := k, mode, g
+					name := fmt.Sprintf("k=%d,dest=%s", k, mode)
+					if g != "" {
+						name += ",focus=" + g
+					}
+					out = append(out, Instance{Name: name, Run: func(ic *IC) *exec.Stats {
+						ic.StrBound = bound
+						fn := env.Repo.Method(pkgMoq, "Mocker", "Mock")
+						st := ic.Explore(func(ex *exec.Exec) {
+							ex.User["focus"] = focusGroups[g]
+							ex.User["lightScope"] = variant == "light"
+							ex.User["fullVariant"] = variant == "full"
+							runMock(ic, ex, env, fn, pkgs, k, mode, bound, false)
+						})
+						mockUnwinding(ic, st, k, mode)
+						return st
+					}})
+				}
 			}
 		}
 		if kf := env.KF.Open("C19", "mock:source-package-named-sync"); kf != nil {
@@ -425,7 +505,8 @@ func faultsTaken(ex *exec.Exec) []string {
 func runMock(ic *IC, ex *exec.Exec, env *Env, fn exec.Value, pkgs map[string]*types.Package, k int, mode string, bound int, witnessRun bool) {
 	c := ex.C
 	repo := env.Repo
-	ms := buildMocker(ex, env, pkgs, mode, bound, k > 1, witnessRun)
+	full, _ := ex.User["fullVariant"].(bool)
+	ms := buildMocker(ex, env, pkgs, mode, bound, k > 1 || full, witnessRun)
 	if witnessRun {
 		ex.AssumeNoCheck(c.Eq(ms.srcName, c.StrC("sync")))
 		ex.AssumeNoCheck(c.Eq(ms.skip, c.False()))
@@ -433,6 +514,30 @@ func runMock(ic *IC, ex *exec.Exec, env *Env, fn exec.Value, pkgs map[string]*ty
 	var nps []*smt.Term
 	for i := 0; i < k; i++ {
 		nps = append(nps, c.Var(fmt.Sprintf("arg%d", i), smt.String))
+	}
+	if full {
+		// mock naming ('Iface:Name') is the light variant's subject
+		for _, np := range nps {
+			ex.AssumeNoCheck(c.Not(c.Contains(np, c.StrC(":"))))
+		}
+	}
+	if focus, _ := ex.User["focus"].([]string); len(focus) > 0 {
+		// each argument names one of the focus objects or nothing at all
+		for _, np := range nps {
+			iname, _ := refPair(ex, np)
+			alts := []*smt.Term{}
+			for _, f := range focus {
+				alts = append(alts, c.Eq(iname, ms.names[f]))
+			}
+			var none []*smt.Term
+			for tag, t := range ms.names {
+				if _, ok := ms.objs[tag]; ok {
+					none = append(none, c.Not(c.Eq(iname, t)))
+				}
+			}
+			alts = append(alts, c.And(none...))
+			ex.AssumeNoCheck(c.Or(alts...))
+		}
 	}
 	w := writerVal("w")
 	ret, pan := ex.CallCatch(fn, []exec.Value{ms.mocker, w, ex.StrSliceOf(nps...)})
@@ -451,7 +556,16 @@ func runMock(ic *IC, ex *exec.Exec, env *Env, fn exec.Value, pkgs map[string]*ty
 	})
 
 	// reference: which scope object each argument names
-	ifaceObjs := []string{"I1", "I2", "G", "L", "K", "AG", "SO", "Cmp", "Repo"}
+	ifaceObjs := []string{"I1", "I2", "G", "L", "K", "AG", "SO", "Cmp", "Repo", "CK", "St", "US", "OS"}
+	{
+		var present []string
+		for _, n := range ifaceObjs {
+			if _, ok := ms.objs[n]; ok {
+				present = append(present, n)
+			}
+		}
+		ifaceObjs = present
+	}
 	var wantI, wantM []*smt.Term
 	var found []*smt.Term
 	for _, np := range nps {
@@ -566,7 +680,7 @@ func runMock(ic *IC, ex *exec.Exec, env *Env, fn exec.Value, pkgs map[string]*ty
 			ex.Fail("C20: cannot determine which interface argument " + fmt.Sprint(i) + " resolved to")
 			continue
 		}
-		if obj.Tag == "L" || obj.Tag == "SO" || obj.Tag == "Repo" { // L's signature and SO's constraint mention a source-package type
+		if obj.Tag == "L" || obj.Tag == "SO" || obj.Tag == "Repo" || obj.Tag == "US" || obj.Tag == "OS" { // L's signature and SO's constraint mention a source-package type
 			usesSrcType = true
 		}
 		iface := obj.Typ.Underlying()
@@ -611,6 +725,9 @@ func runMock(ic *IC, ex *exec.Exec, env *Env, fn exec.Value, pkgs map[string]*ty
 			for q, tp := range got.TypeParams {
 				if q < ntp && (tp.Vr == nil || tp.Vr.Name != nt.TParams.Ts[q].Obj.Name) {
 					okAll = false
+				}
+				if q < ntp && tp.Vr != nil && tp.Vr.Typ != nt.TParams.Ts[q].Constraint {
+					ex.Fail(fmt.Sprintf("C09: type parameter %d of mock %d is not declared under the interface's own constraint", q, i))
 				}
 			}
 		}
@@ -703,7 +820,7 @@ func mockCLICase(m map[string]string, k int, mode string) *CLICase {
 		"p/q/q.go": "package q\n\ntype T struct{}\n",
 		"r/q/q.go": "package q\n\ntype T struct{}\n",
 		"h/h.go":   "package h\n\nimport \"src.example/r/q\"\n\ntype J interface{ Zed(x q.T) }\n",
-		"src/x.go": fmt.Sprintf("package %s\n\nimport (\n\t\"src.example/h\"\n\t\"src.example/p/q\"\n)\n\ntype %s interface {\n\tM0()\n\tM1(a q.T, b int) error\n\tM2(first q.T, rest ...q.T)\n\tM3(chunks ...[]q.T) []q.T\n}\ntype %s interface{}\ntype %s[T any] interface{ Get(k T) T }\ntype %s struct{}\ntype %s interface{ Do(x %s) }\ntype %s interface{ h.J }\ntype %s = %s[int]\ntype %s[T any] interface{ Less(o T) bool }\ntype %s[T %s[T]] interface{ Min() T }\ntype %s string\ntype %s[K interface{ %s }, V any] interface{ Load(id K) (V, error) }\n", src, I1, I2, G, S, L, S, name("K", "K"), name("AG", "AG"), G, name("Cmp", "Cmp"), name("SO", "SO"), name("Cmp", "Cmp"), name("UID", "UID"), name("Repo", "Repo"), name("UID", "UID")),
+		"src/x.go": fmt.Sprintf("package %s\n\nimport (\n\t\"src.example/h\"\n\t\"src.example/p/q\"\n)\n\ntype %s interface {\n\tM0()\n\tM1(a q.T, b int) error\n\tM2(first q.T, rest ...q.T)\n\tM3(chunks ...[]q.T) []q.T\n}\ntype %s interface{}\ntype %s[T any] interface{ Get(k T) T }\ntype %s struct{}\ntype %s interface{ Do(x %s) }\ntype %s interface{ h.J }\ntype %s = %s[int]\ntype %s[T any] interface{ Less(o T) bool }\ntype %s[T %s[T]] interface{ Min() T }\ntype %s string\ntype %s[K interface{ %s }, V any] interface{ Load(id K) (V, error) }\ntype %s[K comparable, V any] interface{ Snap() map[K]V }\ntype %s[T any] interface{ Fetch(id string) (T, error) }\ntype %s struct{}\ntype %s struct{}\ntype %s interface{ %s[%s] }\ntype %s interface{ %s[%s] }\n", src, I1, I2, G, S, L, S, name("K", "K"), name("AG", "AG"), G, name("Cmp", "Cmp"), name("SO", "SO"), name("Cmp", "Cmp"), name("UID", "UID"), name("Repo", "Repo"), name("UID", "UID"), name("CK", "CK"), name("St", "St"), name("U1", "U1"), name("O1", "O1"), name("US", "US"), name("St", "St"), name("U1", "U1"), name("OS", "OS"), name("St", "St"), name("O1", "O1")),
 	}
 	var args []string
 	pkg := m["cfg_PkgName"]
@@ -835,4 +952,11 @@ func checkSignatures(ex *exec.Exec, env *Env, ms *mockSetup, d *tData, got tMock
 		ex.Oblige(c.Eq(r.(*smt.Term), wr), fmt.Sprintf("C02: mock %d method %d: the printed result list is the interface method's result types under the final qualifiers", i, j))
 		ex.Oblige(c.Eq(cl.(*smt.Term), c.Concat(wantCall...)), fmt.Sprintf("C03/C02: mock %d method %d: the delegation passes the parameters in order, spreading the variadic tail", i, j))
 	}
+}
+
+// noFaults: the "full" variant of H.mock explores the large model package without injected faults
+// (fault schedules are the subject of the "light" variant).
+func noFaults(ex *exec.Exec) bool {
+	f, _ := ex.User["fullVariant"].(bool)
+	return f
 }
